@@ -105,6 +105,32 @@ func formatCell(c *table.Cell) (string, error) {
 	return strings.TrimSpace(c.String()), nil
 }
 
+// textCell returns the cell itself, or, for a string cell (an extracted id or
+// type), the text literal with the same characters.
+func textCell(c *table.Cell) *table.Cell {
+	if c.S == nil {
+		return c
+	}
+	l, err := literal.DefaultBuilder().Build(literal.Text, *c.S)
+	if err != nil {
+		return c
+	}
+	return &table.Cell{L: l}
+}
+
+// sameKind returns true if both cells hold a value of the same kind (and, for
+// literals, of the same type).
+func sameKind(a, b *table.Cell) bool {
+	if (a.S != nil) != (b.S != nil) || (a.N != nil) != (b.N != nil) || (a.P != nil) != (b.P != nil) ||
+		(a.L != nil) != (b.L != nil) || (a.T != nil) != (b.T != nil) {
+		return false
+	}
+	if a.L != nil && b.L != nil {
+		return a.L.Type() == b.L.Type()
+	}
+	return true
+}
+
 // evaluationNode represents the internal representation of one expression.
 type evaluationNode struct {
 	operation OP
@@ -133,24 +159,20 @@ func (e *evaluationNode) Evaluate(r table.Row) (bool, error) {
 		return false, err
 	}
 
-	// comparable string expressions for left and right tokens.
-	var csEL, csER string
-	csEL, err = formatCell(leftBinding)
-	if err != nil {
-		return false, fmt.Errorf("evaluationNode.Evaluate failed, the call for formatCell(%s) returned error: %v", leftBinding, err)
+	// Compare by value: extracted ids and types (string cells) compare as text; cells of
+	// different kinds, or literals of different types, never satisfy a comparison.
+	lc, rc := textCell(leftBinding), textCell(rightBinding)
+	if !sameKind(lc, rc) {
+		return false, nil
 	}
-	csER, err = formatCell(rightBinding)
-	if err != nil {
-		return false, fmt.Errorf("evaluationNode.Evaluate failed, the call for formatCell(%s) returned error: %v", rightBinding, err)
-	}
-
+	c := table.CompareCells(lc, rc)
 	switch e.operation {
 	case EQ:
-		return csEL == csER, nil
+		return c == 0, nil
 	case LT:
-		return csEL < csER, nil
+		return c < 0, nil
 	case GT:
-		return csEL > csER, nil
+		return c > 0, nil
 	default:
 		return false, fmt.Errorf("boolean evaluation requires a boolean operation; found %q instead", e.operation)
 	}
@@ -185,21 +207,15 @@ func (e *comparisonForLiteral) Evaluate(r table.Row) (bool, error) {
 		return false, nil
 	}
 
-	// comparable string expressions for left and right tokens.
-	var csEL, csER string
-	csEL, err = formatCell(leftBinding)
-	if err != nil {
-		return false, fmt.Errorf("comparisonForLiteral.Evaluate failed, the call for formatCell(%s) returned error: %v", leftBinding, err)
-	}
-	csER = rightLiteral.ToComparableString()
-
+	// Compare by value (the types agree at this point).
+	c := textCell(leftBinding).L.Compare(rightLiteral)
 	switch e.operation {
 	case EQ:
-		return csEL == csER, nil
+		return c == 0, nil
 	case LT:
-		return csEL < csER, nil
+		return c < 0, nil
 	case GT:
-		return csEL > csER, nil
+		return c > 0, nil
 	default:
 		return false, fmt.Errorf("boolean evaluation requires a boolean operation; found %q instead", e.operation)
 	}
